@@ -41,7 +41,7 @@ func (e *zzLiveEngine) Start(string, ...engine.ControllerOption) error {
 // deleted and whatever API call fails; a CRD the XRD controls stays its own.
 //
 //gosym:harness
-//gosym:cover foreign-crd-live foreign-crd-deleting own-crd uncontrolled-crd-adopted fault-hit
+//gosym:cover foreign-crd-live foreign-crd-deleting own-crd uncontrolled-crd-adopted fault-hit plain-owner-before
 func HarnessC02Definition() {
 	s := kube.New()
 	s.PreserveStatus = true // CRDs have a status subresource: applying the rendered CRD keeps Established
@@ -59,7 +59,7 @@ func HarnessC02Definition() {
 	}
 	s.Put(d)
 
-	crdState := 1 + zz.Choose("crd.state", 3) // ours, controlled by another owner, controlled by nobody
+	crdState := 1 + zz.Choose("crd.state", 4) // ours, controlled by another owner, controlled by nobody, ours as a plain (non-controlling) owner
 	foreign := zz.Str("foreign.uid")
 	zz.Assume(foreign != zzXRDUID)
 	zz.Assume(foreign != "")
@@ -74,6 +74,10 @@ func HarnessC02Definition() {
 		// delete-and-recreate, or anything else
 		crd.OwnerReferences = []metav1.OwnerReference{{APIVersion: "apiextensions.crossplane.io/v1", Kind: "CompositeResourceDefinition", Name: zz.Str("foreign.owner.name"), UID: types.UID(foreign), Controller: ptr.To(true)}}
 	}
+	if crdState == 4 {
+		// e.g. restored from a backup, or written by a tool that sets plain owners
+		crd.OwnerReferences = []metav1.OwnerReference{{APIVersion: "apiextensions.crossplane.io/v1", Kind: "CompositeResourceDefinition", Name: zzXRDName, UID: zzXRDUID}}
+	}
 	if zz.Bool("crd.established") {
 		crd.Status.Conditions = []extv1.CustomResourceDefinitionCondition{{Type: extv1.Established, Status: extv1.ConditionTrue}}
 	}
@@ -84,7 +88,7 @@ func HarnessC02Definition() {
 	s.FaultAt = zz.Choose("fault.at", 7) - 1
 	s.FaultKind = 1 + zz.Choose("fault.kind", 3)
 	r := NewReconciler(NewClientApplicator(s), WithControllerEngine(eng))
-	_, _ = r.Reconcile(context.Background(), reconcile.Request{NamespacedName: types.NamespacedName{Name: zzXRDName}})
+	_, err := r.Reconcile(context.Background(), reconcile.Request{NamespacedName: types.NamespacedName{Name: zzXRDName}})
 	if s.Faulted {
 		zz.Cover("fault-hit")
 	}
@@ -105,9 +109,17 @@ func HarnessC02Definition() {
 		if after != nil {
 			zz.Assert("own-crd-stays-controlled-by-the-xrd", kube.ControllerUID(after) == zzXRDUID)
 		}
-	case 3:
+	case 3, 4:
 		if after != nil && kube.ControllerUID(after) == zzXRDUID {
 			zz.Cover("uncontrolled-crd-adopted")
+		}
+		if crdState == 4 {
+			zz.Cover("plain-owner-before")
+		}
+		// a CRD nobody controls is adopted: after a reconcile of a live XRD that
+		// went through, the CRD carries a controller reference to the XRD
+		if !deleting && !s.Faulted && err == nil && after != nil {
+			zz.Assert("crd-of-a-reconciled-xrd-is-controlled-by-it", kube.ControllerUID(after) == zzXRDUID)
 		}
 	}
 	zz.Observe("crd", after != nil, eng.started, eng.stopped)
